@@ -25,7 +25,7 @@ from .common import Consumer, uncodes, guarded, codes
 
 LEVEL = 'model_checking'
 
-ATOMS = ['a', ' ', '\n', '\\', '{', '}', '[', ']', '$', '%', '~', '-', '*',
+ATOMS = ['a', ' ', '\n', '\r', '\t', '\\', '{', '}', '[', ']', '$', '%', '~', '-', '*',
          '\\begin{e}', '\\end{e}', '\\begin', '\\end', '\\(', '\\)', '\\[', '\\]']
 
 M = pstate.make
@@ -281,7 +281,7 @@ def _export_jobs(atoms, names, K, modes, timeout, sample_every):
 
 def run(ctx):
     quick = ctx.tier == 'quick'
-    ctx.rule = ('TLC enumerates every string of <= K atoms over a 21-atom LaTeX alphabet x parsing-state configurations '
+    ctx.rule = ('TLC enumerates every string of <= K atoms over a 23-atom LaTeX alphabet (incl. CR and TAB) x parsing-state configurations '
                 '(each switch alone and in pairs, math modes, extra delimiters, with/without context db) x '
                 '{strict, tolerant}; the real reader is driven through peek/next/move_to_token/next at every token and '
                 'must produce exactly the implied events; deviating and sampled executions are validated by TLC against '
